@@ -18,7 +18,10 @@ def make_trace(case, res, want):
                        for s in sch["shapes"]],
             "tracked": res.get("tracked", []), "hasTracked": "tracked" in res,
             "profile": res.get("profile", []), "hasProfile": "profile" in res, "order": res.get("order", []),
-            "pres": {"comments": bool(case["cfg"].get("comments", True)), "report": case["cfg"].get("report", "mixed")}, "want": want}
+            "pres": {"comments": bool(case["cfg"].get("comments", True)), "report": case["cfg"].get("report", "mixed")},
+            # two shape keys that get the same label (classes sharing a local name): the quantifiers draw distinct local names and list
+            # this as a known finding; the generators never produce it, the pinned reproducer does
+            "collide": len({l for _k, l in runner.expected_labels(case)}) != len(runner.expected_labels(case)), "want": want}
 
 
 def judge(cases, results, want, procs=8):
